@@ -445,7 +445,17 @@ func main() {
 			return "", err
 		}
 		cb := common.FindFunc(f, "", "callBin")
-		gw := common.FindFunc(f, "", "genFunctionWrapper")
+		// since dc95f3e genFunctionWrapper / genHostFunctionWrapper are one-line delegations to genFunctionWrapperFor(n, host)
+		gw := common.FindFunc(f, "", "genFunctionWrapperFor")
+		if gw == nil {
+			gw = common.FindFunc(f, "", "genFunctionWrapper")
+		} else {
+			for name, want := range map[string]string{"genFunctionWrapper": "returngenFunctionWrapperFor(n,false)", "genHostFunctionWrapper": "returngenFunctionWrapperFor(n,true)"} {
+				if d := common.FindFunc(f, "", name); d == nil || len(d.Body.List) != 1 || nospace(str(d.Body.List[0])) != want {
+					note("%s is not `%s`", name, want)
+				}
+			}
+		}
 		gf := common.FindFunc(f, "", "getFunc")
 		rc := common.FindFunc(f, "", "runCfg")
 		if cb == nil || gw == nil || gf == nil || rc == nil {
@@ -1060,8 +1070,9 @@ func main() {
 		}
 
 		// ---- genFunctionWrapper / getFunc
-		// the frame of an invocation: newCallFrame(anc, length) (= newFrame with the run id and cancellation channel of the root
-		// frame, interp/interp.go, fingerprinted) since 4a41b28, newFrame(anc, length, anc.runid()) before
+		// the frame of an invocation: newCallFrame(interp, anc, length, epoch) since dc95f3e (run id and cancellation channel of the
+		// interpreter unless the epoch the function value belongs to was cancelled; interp/interp.go, fingerprinted),
+		// newCallFrame(anc, length) since 4a41b28, newFrame(anc, length, anc.runid()) before
 		stmtIn := func(fd *ast.FuncDecl, stmts ...string) string {
 			for _, st := range stmts {
 				if find(fd, func(n ast.Node) bool { return str(n) == st }) != nil {
@@ -1070,8 +1081,10 @@ func main() {
 			}
 			return stmts[0]
 		}
-		wrapFrameStmt := stmtIn(gw, "fr := newCallFrame(f, len(def.types))", "fr := newFrame(f, len(def.types), f.runid())")
-		getFuncFrameStmt := stmtIn(gf, "fr2 := newCallFrame(fr, len(n.types))", "fr2 := newFrame(fr, len(n.types), fr.runid())")
+		wrapFrameStmt := stmtIn(gw, "fr := newCallFrame(n.interp, f, len(def.types), e)", "fr := newCallFrame(f, len(def.types))",
+			"fr := newFrame(f, len(def.types), f.runid())")
+		getFuncFrameStmt := stmtIn(gf, "fr2 := newCallFrame(n.interp, fr, len(n.types), fr.getEpoch())", "fr2 := newCallFrame(fr, len(n.types))",
+			"fr2 := newFrame(fr, len(n.types), fr.runid())")
 		wrapFrame := leanBool(find(gw, func(n ast.Node) bool { return str(n) == wrapFrameStmt }) != nil)
 		wrapBase, wrapShift := ".unrecognised", "1000000"
 		for _, n := range findAll(gw, func(n ast.Node) bool {
@@ -1248,7 +1261,7 @@ func main() {
 
 		// ---- fingerprints
 		hashes := common.HashTable(fset, f, [][2]string{{"", "callBin"}, {"", "genFunctionWrapper"}, {"", "getFunc"}, {"", "call"},
-			{"", "genInterfaceWrapper"}, {"", "methodByName"}, {"", "getFrame"}, {"", "callVariadic"}, {"", "deferCallSlice"}, {"", "runDeferred"},
+			{"", "genInterfaceWrapper"}, {"", "methodByName"}, {"", "getFrame"}, {"", "genFunctionWrapperFor"}, {"", "genHostFunctionWrapper"}, {"", "callVariadic"}, {"", "deferCallSlice"}, {"", "runDeferred"},
 			{"", "copyDeferArg"}, {"", "genInterfaceWrapperValue"}, {"", "bindRecv"}, {"", "getIndexBinMethod"}, {"", "getIndexBinElemMethod"},
 			{"", "getIndexBinPtrMethod"}})
 		hashes = strings.TrimSuffix(hashes, "]")
